@@ -365,3 +365,24 @@ Proof.
 Qed.
 
 End Abort.
+
+(* ---------------------------------------------------------------------------------------------- *)
+(* the run continued: whatever the server sends unencrypted after makeAuthKey returned, and whatever the ordinary
+   handlers would do with it (they never get to see it), nothing is added - in particular no Save after an abort *)
+Lemma after_exchange_nil handlers f more : after_exchange handlers f more = [].
+Proof.
+  unfold after_exchange. induction more as [|a r IH]; [reflexivity|]. cbn [map concat]. rewrite IH.
+  destruct a; cbn [receive_unencrypted]; [|reflexivity|reflexivity].
+  destruct (c_service (state_after f)); [reflexivity|]. destruct (c_encrypted (state_after f)); reflexivity.
+Qed.
+
+Theorem abort_stays_clean (H : bytes -> bytes) (E D : bytes -> bytes -> bytes) (modexp : Z -> Z -> Z -> Z)
+    (is_prime : N -> bool) (split : N -> option (N * N)) (handlers : bytes -> list effect)
+    pk dr e sid msgid seq ack body eff fin more :
+  connect_and_request H E D modexp is_prime split pk dr e sid msgid seq ack body = (eff, fin) ->
+  (forall key hash salt, fin <> Success key hash salt) ->
+  forall x, In x (eff ++ after_exchange handlers fin more) -> exists b, x = SendPlain b.
+Proof.
+  intros Hc Hn x Hin. rewrite after_exchange_nil, app_nil_r in Hin.
+  exact (abort_is_clean H E D modexp is_prime split pk dr e sid msgid seq ack body eff fin Hc Hn x Hin).
+Qed.
